@@ -38,6 +38,11 @@ PROGRAMS = [
                  'try:\n    raise ValueError(data)\nexcept ValueError as err:\n    print(type(err).__name__)\n'
                  'x = [e * 2 for e in (1, 2)]\nprint(x)\n'},
      'main.py', ['idx', 'fh', 'data', 'err', 'e', 'x']),
+    # implicit namespace package split over two search-path roots
+    ({'src1/plugins/alpha.py': 'def a():\n    return 1\n', 'src2/plugins/beta.py': 'def b():\n    return 2\n',
+      'main.py': 'import plugins.alpha\nimport plugins.beta\nfrom plugins import alpha\n'
+                 'print(plugins.alpha.a(), plugins.beta.b(), alpha.a())\n'},
+     'main.py', ['plugins', 'alpha'], ['src1', 'src2']),
 ]
 
 
@@ -49,9 +54,10 @@ def write_tree(root, files):
             f.write(text)
 
 
-def run_main(root, main):
+def run_main(root, main, extra_roots=()):
+    pp = os.pathsep.join([root] + [os.path.join(root, r) for r in extra_roots])
     p = subprocess.run([sys.executable, '-S', main], cwd=root, capture_output=True, text=True, timeout=60,
-                       env={'PYTHONPATH': root, 'PYTHONIOENCODING': 'utf-8', 'PATH': os.environ.get('PATH', '')})
+                       env={'PYTHONPATH': pp, 'PYTHONIOENCODING': 'utf-8', 'PATH': os.environ.get('PATH', '')})
     return p.returncode, p.stdout, p.stderr[-300:]
 
 
@@ -86,11 +92,13 @@ def run(repo, seed, tier):
     violations = []
     evaluations = 0
     samples = []
-    for files, main, idents in PROGRAMS:
+    for prog in PROGRAMS:
+        files, main, idents = prog[:3]
+        extra_roots = prog[3] if len(prog) > 3 else []
         base = tempfile.mkdtemp(prefix='ren_', dir=os.environ['STANDIN_TMP'])
         try:
             write_tree(base, files)
-            rc0, out0, err0 = run_main(base, main)
+            rc0, out0, err0 = run_main(base, main, extra_roots)
             if rc0 != 0:
                 violations.append({'label': 'generated program does not run', 'input': repr(files), 'observed': err0})
                 continue
@@ -105,7 +113,7 @@ def run(repo, seed, tier):
                             prefix='renw_', dir=os.environ['STANDIN_TMP'])
                         try:
                             write_tree(work, files)
-                            project = jedi.Project(work)
+                            project = jedi.Project(work, added_sys_path=[os.path.join(work, r) for r in extra_roots])
                             try:
                                 s, refs = refs_of(jedi, project, work, rel, pos)
                                 if not refs:
@@ -145,7 +153,7 @@ def run(repo, seed, tier):
                                             'observed': 'new code %r, expected %r' % (new_t[:200], want[:200])})
                                 ref.apply()
                                 # (d) same behaviour
-                                rc1, out1, err1 = run_main(work, main)
+                                rc1, out1, err1 = run_main(work, main, extra_roots)
                                 if (rc1, out1) != (rc0, out0):
                                     violations.append({
                                         'label': 'renamed program behaves differently',
@@ -161,7 +169,7 @@ def run(repo, seed, tier):
                                         back_from = (r2, o2[0])
                                         break
                                 if back_from:
-                                    p2 = jedi.Project(work)
+                                    p2 = jedi.Project(work, added_sys_path=[os.path.join(work, r) for r in extra_roots])
                                     path2 = os.path.join(work, back_from[0])
                                     s2 = jedi.Script(open(path2, encoding='utf-8', newline='').read(), path=path2, project=p2)
                                     s2.rename(back_from[1][0], back_from[1][1], new_name=ident).apply()
